@@ -347,3 +347,14 @@ def continue_on_loaded(ctx, doc_str, label):
         d = _first_diff(first, again) or {}
         what = "metadata" if "metadata" in d.get("path", "") else "structure"
         ctx.violate("load-deterministic", f"same-document-loads-differently:{what}", {"label": label, "diff": d})
+
+
+def doc_positions(ctx, h, doc, label="doc"):
+    """in-memory node index -> position in the document (None + violation if the hierarchies do not match)."""
+    mem_nodes = [{"idx": n.idx, "parent": h[n].parent.idx if h[n].parent is not None else None,
+                  "children": [c.idx for c in h.children(n)]} for n in h]
+    doc_children = {}
+    for i, o in enumerate(doc["nodes"]):
+        if i != 0:
+            doc_children.setdefault(o["parent"], []).append(i)
+    return correspondence(ctx, mem_nodes, doc_children, 0, label)
